@@ -57,7 +57,7 @@ Section Step.
     unfold extraVanity, extraSeal, addressLength in H.
     repeat brk H. inversion H; subst; clear H.
     apply N.eqb_neq in E.
-    apply negb_false_iff, N.eqb_eq in E2. apply negb_false_iff in E3.
+    apply negb_false_iff in E2. apply negb_false_iff, N.eqb_eq in E3.
     apply negb_false_iff, bytes_eqb_eq in E4. apply N.ltb_ge in E5, E6.
     apply negb_false_iff, bytes_eqb_eq in E9. apply negb_false_iff, mem_In in E10.
     constructor; try assumption.
